@@ -51,6 +51,21 @@ def make_cases(rng, tier, n):
             c["hist_info"] = dict(commits=0)
             cases.append(c)
             continue
+        if not pipe and rng.random() < 0.15:
+            # a cached output that is a symbolic link to a plain input / a skip-cache artifact of the project ("latest.csv -> raw.csv"):
+            # commit refuses the link; under no circumstances may it move or replace the file the link points to
+            targets = [(p, fl) for sp, st in c["stages"] for p, fl in st.get("in", []) if "d" not in fl] + \
+                      [(p, fl) for sp, st in c["stages"] for p, fl in st.get("out", []) if "s" in fl and "d" not in fl]
+            outs = [(p, fl) for sp, st in c["stages"] for p, fl in st.get("out", []) if "s" not in fl and "d" not in fl]
+            if targets and outs:
+                o, t = rng.choice(outs), rng.choice(targets)
+                c["ops"] = ([("commit", rng.choice("lc"), [])] if rng.random() < 0.5 else []) + \
+                    [("wlink", o[0], t[0]), ("commit", "l", []), ("status", []), ("commit", "c", [])]
+                c["tail_ops"] = []
+                c["hist_info"] = dict(commits=1)
+                stats["link_to_plain_input"] = stats.get("link_to_plain_input", 0) + 1
+                cases.append(c)
+                continue
         base_ops = c["ops"]
         gen.gen_history(rng, c, rng.randrange(2, 7), allow=("commit", "checkout", "edit", "add", "del", "rmart", "push", "run"))
         c["ops"] = base_ops + c["ops"]
@@ -144,7 +159,7 @@ def oracle(run):
         if k in ("run", "status", "graph", "checkout", "push", "stageadd", "stagerm"):
             if prev["cache"] != snap["cache"] or prev["stray"] != snap["stray"]:
                 v.append(("cache-changed", "%s added, changed or removed a cache object" % what))
-        if k not in ("write", "rm", "mkdir", "run", "checkout"):
+        if k in ("commit", "status", "graph", "push", "fetch", "stageadd", "stagerm"):
             # no dud command (commit included) touches a plain input or a skip-cache artifact
             for p, fl in plain + skipc:
                 if ws_under(prev, p) != ws_under(snap, p):
